@@ -28,6 +28,8 @@ def _case(draw, worlds):
             'steps': draw(st.integers(1, 5)), 'schedule': draw(st.lists(st.integers(0, 63), max_size=200)),
             'flip': draw(st.booleans())}
     case.update(draw(placement(W, method, prediv)))
+    if method == 'inverse' and case['factor_dtype'] == 'bfloat16':
+        case['factor_dtype'] = 'float64'      # bfloat16 factors + inverse method can be exactly singular (numerical domain of C01)
     return case
 
 
